@@ -98,6 +98,16 @@ func (rs *restorer) RestoreChunk(ctx context.Context, idx uint64, r io.Reader) (
 	rs.Lock()
 	defer rs.Unlock()
 
+	// The restore may have been aborted (e.g. by another chunk failing proof verification) or
+	// replaced while this chunk was being imported. In that case the chunk belongs to no restore
+	// that is in progress and must not be counted towards its completion.
+	if rs.currentCheckpoint == nil {
+		return false, ErrNoRestoreInProgress
+	}
+	if cur, cerr := rs.currentCheckpoint.GetChunkMetadata(idx); cerr != nil || !cur.Root.Equal(&chunk.Root) || !cur.Digest.Equal(&chunk.Digest) {
+		return false, ErrNoRestoreInProgress
+	}
+
 	// Mark the given chunk as restored.
 	delete(rs.pendingChunks, idx)
 
